@@ -16,6 +16,7 @@ INVARIANT C04_PubKeysMatch
 CHECK_DEADLOCK FALSE
 CONSTANTS
   Roa <- MCRoa1
+  AspaDefs <- NoAspa
   ParentOf <- Chain
   Ops = {"res", "roa", "refresh"}
 CONSTANTS
